@@ -23,7 +23,7 @@ func init() {
 func c04Config(rc *RunCtx) {
 	r := rc.Rng
 	rc.Cfg["version"] = []int{2, 3, 3, 23}[r.Intn(4)]
-	rc.Cfg["alphabet"] = r.Intn(2)
+	rc.Cfg["alphabet"] = textAlphabet(r)
 	rc.Cfg["pattern"] = r.Intn(6) // 0 mixed, 1 ping-pong, 2 A-only bursts, 3 both burst, 4 long texts, 5 ticks-heavy
 	rc.Cfg["smp"] = r.Intn(3) / 2
 	rc.Cfg["xkey"] = r.Intn(3) / 2
